@@ -285,6 +285,30 @@ where X: CandidType + for<'de> Deserialize<'de> + Debug + PartialEq {
                 Err(e) => if is_quota(&e) { Out::Quota } else { Out::Err },
             })
         }
+        // two arguments of X's type on one IDLDeserialize: what the SECOND, natively decoded argument costs (both counters)
+        // does not depend on whether the first was read natively or as an untyped IDLValue
+        "p.c07.mixed" => {
+            let vs: Vec<V> = sx::parse(a[0]).list().iter().map(V::from_sx).collect();
+            if vs.len() != 1 { return "ok".into(); }
+            let (env, t, _, _) = type_of::<X>();
+            let msg = crate::val::message(&env, &[t.clone(), t], &[vs[0].clone(), vs[0].clone()], 0);
+            let cfg = config(Some(1 << 40), Some(1 << 40));
+            let run = |untyped_first: bool| -> Result<(usize, usize), String> {
+                let mut de = IDLDeserialize::new_with_config(&msg, &cfg).map_err(|e| e.to_string())?;
+                if untyped_first { de.get_value::<candid::types::value::IDLValue>().map_err(|e| e.to_string())?; } else { de.get_value::<X>().map_err(|e| e.to_string())?; }
+                let c1 = de.get_config().compute_cost(&cfg);
+                de.get_value::<X>().map_err(|e| e.to_string())?;
+                let c2 = de.get_config().compute_cost(&cfg);
+                de.done().map_err(|e| e.to_string())?;
+                Ok((c2.decoding_quota.unwrap_or(0) - c1.decoding_quota.unwrap_or(0), c2.skipping_quota.unwrap_or(0) - c1.skipping_quota.unwrap_or(0)))
+            };
+            match (run(false), run(true)) {
+                (Ok(n), Ok(u)) => if n == u { "ok".into() } else { format!("FAIL the second argument costs {:?} after a native first argument and {:?} after an untyped one", n, u) },
+                (Err(_), Err(_)) => "ok".into(),
+                (Ok(_), Err(e)) => format!("FAIL decodes after a native first argument but not after an untyped one: {}", e),
+                (Err(e), Ok(_)) => format!("FAIL decodes after an untyped first argument but not after a native one: {}", e),
+            }
+        }
         _ => format!("(unknown-native-op {})", op),
     }
 }
